@@ -23,6 +23,13 @@ pub struct Case {
     /// hash of the OTHER entry's bytes under a weaker algorithm (accepted: the strongest decides)
     #[serde(default)]
     pub weaker_hash_of_other: bool,
+    /// the victim's bytes are ALSO stored (intact) under a weaker algorithm and the victim's index
+    /// entry names both hashes; the damage hits the file of the stronger one, which alone decides
+    #[serde(default)]
+    pub twin_under_weaker: bool,
+    /// the victim key held another value first (that older content is still in the cache)
+    #[serde(default)]
+    pub older_version: bool,
 }
 
 pub struct C01;
@@ -72,7 +79,7 @@ impl Engine for C01 {
          emptying, garbage range, replacement by random bytes / by the other entry's bytes, swap with the other entry's file, symlink to another file / dangling / \
          directory, deletion); then EVERY checked retrieval entry point (read, read_hash, SyncReader/Reader with generated buffer sizes + check, copy, copy_hash, \
          hard_link*, reflink*) by key and by address in both flavours. Oracle: the call returns an error, or the delivered bytes (vector / stream after check() / \
-         destination file) equal the originally stored bytes AND hash to the requested address. Exhaustive part: every single-bit flip and every truncation length of \
+         destination file) equal the originally stored bytes AND hash to the requested address. Variants: the victim's bytes are also stored intact under a weaker algorithm with both hashes in its index entry (the damaged file is the one the strongest hash names); the victim key held another value before whose content is still present. Exhaustive part: every single-bit flip and every truncation length of \
          the stated small blobs. Non-trivial = the file's bytes actually differ from the original and the lookup reached the content path; distinct = distinct case"
             .into()
     }
@@ -91,10 +98,10 @@ impl Engine for C01 {
             let blob = Blob::new(len, 100 + li as u64);
             let other = Blob::new(len.max(2) - 1, 200 + li as u64);
             for bit in 0..len * 8 {
-                out.push(Case { algo, blob: blob.clone(), other: other.clone(), dmg: CDamage::FlipBit(bit), bufs: vec![], threads: 0, weaker_hash_of_other: false });
+                out.push(Case { algo, blob: blob.clone(), other: other.clone(), dmg: CDamage::FlipBit(bit), bufs: vec![], threads: 0, weaker_hash_of_other: false, twin_under_weaker: false, older_version: false });
             }
             for n in 0..len {
-                out.push(Case { algo, blob: blob.clone(), other: other.clone(), dmg: CDamage::Truncate(n), bufs: vec![3], threads: 0, weaker_hash_of_other: false });
+                out.push(Case { algo, blob: blob.clone(), other: other.clone(), dmg: CDamage::Truncate(n), bufs: vec![3], threads: 0, weaker_hash_of_other: false, twin_under_weaker: false, older_version: false });
             }
         }
         // every algorithm sees every damage class once
@@ -115,14 +122,37 @@ impl Engine for C01 {
                 CDamage::SymlinkToDir,
                 CDamage::Delete,
             ] {
-                out.push(Case { algo, blob: blob.clone(), other: other.clone(), dmg, bufs: vec![1, 64], threads: 0, weaker_hash_of_other: false });
+                out.push(Case { algo, blob: blob.clone(), other: other.clone(), dmg, bufs: vec![1, 64], threads: 0, weaker_hash_of_other: false, twin_under_weaker: false, older_version: false });
             }
         }
         // the index names a weaker hash of the other entry next to the right one, and the content
         // is replaced by exactly the other entry's bytes
         for &algo in ALGOS.iter() {
             for dmg in [CDamage::OtherBlob(1), CDamage::SwapWith(AddrRef { algo, blob: 1 }), CDamage::SymlinkToBlob(1)] {
-                out.push(Case { algo, blob: Blob::new(300, 7), other: Blob::new(300, 8), dmg, bufs: vec![64], threads: 0, weaker_hash_of_other: true });
+                out.push(Case { algo, blob: Blob::new(300, 7), other: Blob::new(300, 8), dmg, bufs: vec![64], threads: 0, weaker_hash_of_other: true, twin_under_weaker: false, older_version: false });
+            }
+        }
+        // the same bytes are stored under two algorithms and the entry names both hashes: every
+        // damage class on the file of the stronger one; and a key whose previous value is still
+        // in the cache, every damage class on the current one
+        for (i, &algo) in ALGOS.iter().enumerate() {
+            for (j, dmg) in [
+                CDamage::FlipBit(11),
+                CDamage::Truncate(299),
+                CDamage::Extend(vec![0]),
+                CDamage::Empty,
+                CDamage::Replace { len: 300, salt: 2 },
+                CDamage::OtherBlob(1),
+                CDamage::SymlinkToBlob(1),
+                CDamage::SymlinkDangling,
+                CDamage::SymlinkToDir,
+                CDamage::Delete,
+            ]
+            .into_iter()
+            .enumerate()
+            {
+                out.push(Case { algo, blob: Blob::new(300, 7), other: Blob::new(300, 8), dmg: dmg.clone(), bufs: vec![64], threads: 0, weaker_hash_of_other: false, twin_under_weaker: true, older_version: (i + j) % 3 == 0 });
+                out.push(Case { algo, blob: Blob::new(300, 7), other: Blob::new(300, 8), dmg, bufs: vec![64], threads: 0, weaker_hash_of_other: false, twin_under_weaker: false, older_version: true });
             }
         }
         // several threads of one process ask for the same (pristine, then damaged) entry at once
@@ -135,21 +165,21 @@ impl Engine for C01 {
         .into_iter()
         .enumerate()
         {
-            out.push(Case { algo: ALGOS[i % 2], blob: Blob::new(len, 300 + i as u64), other: Blob::new(9, 400), dmg, bufs: vec![65536], threads: 6, weaker_hash_of_other: false });
+            out.push(Case { algo: ALGOS[i % 2], blob: Blob::new(len, 300 + i as u64), other: Blob::new(9, 400), dmg, bufs: vec![65536], threads: 6, weaker_hash_of_other: false, twin_under_weaker: false, older_version: false });
         }
         // entries larger than what one file read delivers (2 MiB on tokio), read with ONE read_exact
         for (i, len) in [(2usize << 20) + 77, 5_000_000].into_iter().enumerate() {
-            out.push(Case { algo: ALGOS[i % 2], blob: Blob::new(len, 500 + i as u64), other: Blob::new(9, 402), dmg: CDamage::FlipBit(len * 8 - 3), bufs: vec![usize::MAX - 1], threads: 0, weaker_hash_of_other: false });
+            out.push(Case { algo: ALGOS[i % 2], blob: Blob::new(len, 500 + i as u64), other: Blob::new(9, 402), dmg: CDamage::FlipBit(len * 8 - 3), bufs: vec![usize::MAX - 1], threads: 0, weaker_hash_of_other: false, twin_under_weaker: false, older_version: false });
         }
         // zero runs at the granularities sparse-file tricks work with
         for (i, (len, fill)) in [(131072usize, blob::Fill::Zero), (262144, blob::Fill::Zero), (393216, blob::Fill::ZeroTail), (196608, blob::Fill::ZeroTail), (65536, blob::Fill::Zero), (393216, blob::Fill::ZeroHead)].into_iter().enumerate() {
-            out.push(Case { algo: ALGOS[i % 5], blob: Blob { len, salt: 3, fill }, other: Blob::new(9, 401), dmg: CDamage::FlipBit(len * 8 - 1), bufs: vec![], threads: 0, weaker_hash_of_other: false });
+            out.push(Case { algo: ALGOS[i % 5], blob: Blob { len, salt: 3, fill }, other: Blob::new(9, 401), dmg: CDamage::FlipBit(len * 8 - 1), bufs: vec![], threads: 0, weaker_hash_of_other: false, twin_under_weaker: false, older_version: false });
         }
         out
     }
     fn exhaustive_note(&self, tier: Tier) -> String {
         format!(
-            "every single-bit flip and every truncation length of blobs of {} bytes; plus each of 12 damage classes under each of the 5 algorithms; 4 large entries retrieved by 6 threads at once; 6 entries with zero runs of 64..128 KiB",
+            "every single-bit flip and every truncation length of blobs of {} bytes; plus each of 12 damage classes under each of the 5 algorithms; 10 damage classes x 5 algorithms on an entry whose bytes are also stored under a weaker algorithm (both hashes in the index) and on a key whose previous value is still in the cache; 4 large entries retrieved by 6 threads at once; 6 entries with zero runs of 64..128 KiB",
             tier.pick("1, 7, 64", "1, 7, 64, 257, 1025")
         )
     }
@@ -158,8 +188,11 @@ impl Engine for C01 {
     }
     fn strategy(&self, tier: Tier) -> BoxedStrategy<Case> {
         let mix = tier.pick(SizeMix::Normal, SizeMix::Normal);
-        (gen::algo(), gen::blob(mix), gen::blob(SizeMix::Small), gen::cdamage(2), gen::bufs(), prop::bool::weighted(0.08), prop::bool::weighted(0.15))
-            .prop_map(|(algo, blob, mut other, mut dmg, bufs, threads, weaker)| {
+        (gen::algo(), gen::blob(mix), gen::blob(SizeMix::Small), gen::cdamage(2), gen::bufs(), prop::bool::weighted(0.08), 0u8..20)
+            .prop_map(|(algo, blob, mut other, mut dmg, bufs, threads, shape)| {
+                let weaker = shape < 3;
+                let twin = (3..6).contains(&shape);
+                let older = (5..9).contains(&shape);
                 if other.bytes() == blob.bytes() {
                     other.len += 1;
                 }
@@ -171,22 +204,54 @@ impl Engine for C01 {
                 }
                 // (a stream that stops early is not a finished retrieval)
                 let bufs = if matches!(bufs.first(), Some(&m) if m == usize::MAX - 2 || m == usize::MAX - 3) { bufs[1..].to_vec() } else { bufs };
-                Case { algo, blob, other, dmg, bufs, threads: if threads { 4 } else { 0 }, weaker_hash_of_other: weaker }
+                Case { algo, blob, other, dmg, bufs, threads: if threads { 4 } else { 0 }, weaker_hash_of_other: weaker, twin_under_weaker: twin, older_version: older }
             })
             .boxed()
     }
     fn run_case(&self, c: &Case, st: &mut Stats, env: &mut WorkerEnv) -> Result<(), String> {
         env.scratch.reset();
         let keys = vec!["victim".to_string(), "other".to_string()];
-        let blobs = vec![c.blob.clone(), c.other.clone()];
+        let mut older = c.other.clone();
+        older.len += 1;
+        older.salt ^= 0x55;
+        let blobs = vec![c.blob.clone(), c.other.clone(), older];
         let ctx = Ctx::new(env.scratch.cache.clone(), env.scratch.scratch.clone(), &keys, &blobs);
         let orig = ctx.blob(0);
         // set-up through the library (alternating flavour by case hash)
         let h = hash_of(c);
+        if c.older_version {
+            // the victim key's earlier value: the other entry's bytes with one byte more
+            let mut w = WriteSpec::simple(Some(0), 2);
+            w.entry = WEntry::OneShotAlgo;
+            w.algo = c.algo;
+            let r = run_step(&ctx, &Step { op: Op::Write(w), fl: if (h >> 5) & 1 == 0 { Fl::Sync } else { Fl::Async } });
+            if !matches!(r.out, Out::Int(_)) {
+                return Err(format!("set-up write of the older version failed: {}", r.out.short()));
+            }
+        }
+        if c.twin_under_weaker {
+            if let Some(wk) = crate::exec::weaker_algo(c.algo) {
+                let mut w = WriteSpec::simple(None, 0);
+                w.entry = WEntry::OneShotAlgo;
+                w.algo = wk;
+                let r = run_step(&ctx, &Step { op: Op::Write(w), fl: if (h >> 6) & 1 == 0 { Fl::Sync } else { Fl::Async } });
+                if !matches!(r.out, Out::Int(_)) {
+                    return Err(format!("set-up write of the twin failed: {}", r.out.short()));
+                }
+                st.class("same_bytes_stored_under_two_algorithms");
+            }
+        }
+        if c.older_version {
+            st.class("victim_key_had_an_older_value");
+        }
         for (k, b) in [(0usize, 0usize), (1, 1)] {
             let mut w = WriteSpec::simple(Some(k), b);
             w.entry = WEntry::OneShotAlgo;
             w.algo = c.algo;
+            if c.twin_under_weaker && k == 0 {
+                w.entry = WEntry::Opts;
+                w.integ = IntegDecl::MultiWeakerOfSame;
+            }
             if c.weaker_hash_of_other && k == 0 {
                 // (the "other value of the pool" of blob 0 is blob 1)
                 w.entry = WEntry::Opts;
